@@ -10,7 +10,7 @@ from parglare.exceptions import GrammarError
 
 import gen
 from pcommon import *
-from enc import enc_ggrammar
+from enc import enc_ggrammar, enc_items, enc_grammar
 
 MANIFEST_ENTRY = {
     "category": "proof",
@@ -32,7 +32,8 @@ MANIFEST_ENTRY = {
 
 PROP = "C05"
 LEVEL = "proof"
-THEOREMS = ["C05_resolve_no_invention", "C05_resolve_empty_cell", "decideShift_sub", "addReduce_sub"]
+THEOREMS = ["C05_resolve_no_invention", "C05_resolve_empty_cell", "decideShift_sub", "addReduce_sub",
+            "C05_validated_table_complete", "C05_validated_table_exact", "lemmaA", "lr_complete"]
 META = {
     "rule": "cases = (productive grammar, LALR|SLR, prefer_shifts x prefer_shifts_over_empty, start production main|"
             "LAYOUT); non-trivial = table with a state whose kernel was reached twice (merge attempted) or with a "
@@ -127,21 +128,33 @@ def run_unit(u):
             body = enc[:len(enc) - 1 - 2 * len(num.terms)]
             q = b.add("tablegen", lr1, ps, pse, sp, 1, 4000)
             qf = None
+            qv = None
             if not ps and not pse and not has_priorities(g):
                 b.add("table", enc)
                 qf = b.add("faithful", sp, lr1, 4000)
                 st["lr1_reference_checks"] += 1
+                # completeness validator (C05_validated_table_complete) on the implementation's own item sets
+                b.add("grammar", enc_grammar(num, sp))
+                qv = b.add("lrvalid", enc_items(num, t, bool(lr1), sp))
             conflicts = sorted({(c.state.state_id, num.term(c.term)) for c in t.sr_conflicts + t.rr_conflicts})
-            checks2.append((case, body, q, qf, len(t.states), conflicts))
+            checks2.append((case, body, q, qf, len(t.states), conflicts, qv))
         out = b.run()
         st["traces"] += len(checks2)
-        for case, body, q, qf, nstates, conflicts in checks2:
+        for case, body, q, qf, nstates, conflicts, qv in checks2:
             want = "table " + " ".join(str(x) for x in body)
             if out[q] != want:
                 res["disagreements"].append({"case": case, "model": out[q][:400], "impl": want[:400]})
             if qf is not None and out[qf].startswith("faithful") and out[qf] != "faithful ok" and out[qf] != "faithful fuel":
                 res["violations"].append({"kind": "table-not-faithful-to-lr1-family", "case": case,
                                           "observed": out[qf]})
+            if qv is not None:
+                if out[qv] == "lrvalid 1":
+                    st["validated_complete"] = st.get("validated_complete", 0) + 1
+                else:
+                    # the hypothesis of the completeness theorem does not hold for this table: broken obligation
+                    # (the LR(1)-reference comparison above is the search for a missing action)
+                    res["disagreements"].append({"case": case, "what": "completeness validator rejects the "
+                                                 "implementation's table/item sets", "model": out[qv][:300]})
             if conflicts or nstates > 6:
                 res["nontrivial"].append(h16(case))
             if len(res["samples"]) < 2 and conflicts:
